@@ -228,11 +228,19 @@ def f6(ctx, rid):
     c03.i5(ctx, rid)
 
 
+def f7(ctx, rid):
+    """once the fault clears the storage keeps rotating / syncing: request-pending and in-progress flags are released on every
+    path, including the error exits of their handlers (C12.S8 / C13.L8 instances)"""
+    import props.c12 as c12
+    c12.s8(ctx, rid, only_sync=False)
+
+
 RULES = [
     Rule('C11.X3', 'no err-exit is reachable between a move-out of shared state and its hand-back', x3, 4),
     Rule('C11.L1', 'an error while handling a worker message never ends the maintenance loop (C13.L1 instances)', l1, 4),
     Rule('C11.F3', 'no Result of a fallible storage-layer call is dropped unobserved', f3, 1),
     Rule('C11.F4', 'file data is written with all-or-error primitives, or the returned byte count is compared', f4, 5),
     Rule('C11.F5', 'a record header reaches the index only on the ok edge of its append', f5, 2),
+    Rule('C11.F7', 'boolean request-pending / in-progress flags are released on every path including error exits (C12.S8 instances)', f7, 1),
     Rule('C11.F6', 'an index file cut short by a failed dump is never trusted: written flag set in a second phase, extent checked at open (C03.I8/I5 instances)', f6, 2),
 ]
